@@ -187,7 +187,7 @@ def check_validators(ctx, req):
     from common import cstr
     terms = ["[if attribute_name_refused %s %s then 1 else 0]%%N" % (cstr(ns), cstr(n)) for ns, n in NAME_SAMPLES]
     terms += ["[if pi_content_refused %s then 1 else 0]%%N" % cstr(c) for c in PI_SAMPLES]
-    vals = ctx.coq_eval(ctx.prop.lower() + "_validators", req + "From Delb.Gen Require Import GenNsValidators.\n", terms)
+    vals = coq_eval_retry(ctx, ctx.prop.lower() + "_validators", req + "From Delb.Gen Require Import GenNsValidators.\n", terms)
 
     def refuses(f):
         try:
@@ -237,6 +237,22 @@ def check_validators(ctx, req):
                     ctx.fail("%s accepts PI content %r, whose leading white space XML cannot carry" % (route, c), case)
                 else:
                     ctx.mismatch("pi_content_refused vs " + route, case)
+
+
+def coq_eval_retry(ctx, name, req, terms, chunk=200):
+    """ctx.coq_eval, with the terms of a failed file evaluated once more: coqc reads the compiled libraries of the
+    shared tree without the build lock, so a file can fail while another check is rebuilding a .vo it loads"""
+    import time
+    vals = ctx.coq_eval(name, req, terms, chunk=chunk)
+    missing = [i for i, v in enumerate(vals) if v is None]
+    if missing:
+        time.sleep(5)
+        from common import coq_lock
+        with coq_lock():
+            again = ctx.coq_eval(name + "_retry", req, [terms[i] for i in missing], chunk=chunk)
+        for i, v in zip(missing, again):
+            vals[i] = v
+    return vals
 
 
 def caller_term(m):
